@@ -38,6 +38,11 @@ pub enum Step {
     User(u8),
     Advance(u16),
     Reconnect,
+    /// a user request (0 direct operate, 1 warm restart, 2 write dead-bands, 3 freeze-and-clear, 4 read of a range) is never
+    /// answered; instead the outstation keeps the line busy - kind 0 null unsolicited responses, 1 responses with another
+    /// sequence number, 2 link status requests, 3 frames from an unknown outstation - one every `every` ms (less than the
+    /// response timeout) for longer than the response timeout: the request must still end (with a time-out)
+    Starve(u8, u8, u16),
 }
 
 #[derive(Clone, Debug, Serialize, Deserialize)]
@@ -233,6 +238,98 @@ pub async fn run_script(case: &Case) -> CaseOut {
                 out.label("user_request");
             }
             Step::Advance(ms) => rig.advance(*ms as u64).await,
+            Step::Starve(user, kind, every) => {
+                // let what is outstanding run out first (nothing is answered)
+                rig.advance(3 * TIMEOUT).await;
+                let _ = rig.take_requests();
+                let mut h = rig.assocs.get_mut(&OUT).unwrap().handle.clone();
+                // requests that no other step makes, so that the fragment on the wire identifies the task
+                let (p, want_func, want_objs): (crate::verif::rig::master::Pending, u8, Vec<u8>) = match user % 5 {
+                    0 => (
+                        rig.submit("starved", async move {
+                            h.operate(CommandMode::DirectOperate, CommandBuilder::single_header_u16(crate::app::control::Group12Var1::from_op_type(crate::app::control::OpType::LatchOn), 4242u16)).await.map_err(|e| format!("{e:?}"))
+                        }),
+                        func::DIRECT_OPERATE,
+                        vec![12, 1, 0x28, 1, 0, 0x92, 0x10],
+                    ),
+                    1 => (rig.submit("starved", async move { h.warm_restart().await.map(|_| ()).map_err(|e| format!("{e:?}")) }), func::WARM_RESTART, vec![]),
+                    2 => (
+                        rig.submit("starved", async move { h.write_dead_bands(vec![DeadBandHeader::group34_var3_u16(vec![(4242, 1.5)])]).await.map_err(|e| format!("{e:?}")) }),
+                        func::WRITE,
+                        vec![34, 3, 0x28, 1, 0, 0x92, 0x10],
+                    ),
+                    3 => (
+                        rig.submit("starved", async move { h.send_and_expect_empty_response(FunctionCode::FreezeClear, Headers::default().add_all_objects(Variation::Group20Var0)).await.map_err(|e| format!("{e:?}")) }),
+                        func::FREEZE_CLEAR,
+                        vec![20, 0],
+                    ),
+                    _ => (
+                        rig.submit("starved", async move { h.read(ReadRequest::one_byte_range(Variation::Group30Var1, 77, 78)).await.map_err(|e| format!("{e:?}")) }),
+                        func::READ,
+                        vec![30, 1, 0, 77, 78],
+                    ),
+                };
+                // wait (answering nothing) until that very request is on the wire; other work may be ahead of it
+                let mut sent: Option<Fragment> = None;
+                for _ in 0..24 {
+                    rig.settle().await;
+                    for (_, _, f) in rig.take_requests() {
+                        if f.func == want_func && f.objects.starts_with(&want_objs) && f.func != func::CONFIRM {
+                            sent = Some(f);
+                        }
+                    }
+                    if sent.is_some() || !p.outcomes().is_empty() {
+                        break;
+                    }
+                    rig.advance(TIMEOUT / 4).await;
+                }
+                if let (Some(req), true) = (sent, p.outcomes().is_empty()) {
+                    out.label("starved_request");
+                    out.nontrivial = true;
+                    let every = 1 + (*every as u64 % (TIMEOUT - 1));
+                    let mut waited = 0u64;
+                    let mut n = 0u8;
+                    while waited <= TIMEOUT + every {
+                        match kind % 4 {
+                            0 => {
+                                let f = Fragment { fir: true, fin: true, con: true, uns: true, seq: n & 0x0F, func: func::UNSOLICITED_RESPONSE, iin: Some((0, 0)), objects: vec![] };
+                                rig.respond(OUT, &f);
+                            }
+                            1 => {
+                                let f = Fragment { fir: true, fin: true, con: false, uns: false, seq: (req.seq + 1 + (n % 15)) & 0x0F, func: func::RESPONSE, iin: Some((0, 0)), objects: vec![] };
+                                rig.respond(OUT, &f);
+                            }
+                            2 => {
+                                let b = rl::encode(0x49, M_ADDR, OUT, &[]);
+                                rig.send_raw(&b);
+                            }
+                            _ => {
+                                let f = Fragment { fir: true, fin: true, con: false, uns: false, seq: req.seq, func: func::RESPONSE, iin: Some((0, 0)), objects: vec![] };
+                                let b = rig.frame_fragment(3000, M_ADDR, &f.encode());
+                                rig.send_raw(&b);
+                            }
+                        }
+                        n = n.wrapping_add(1);
+                        rig.advance(every).await;
+                        waited += every;
+                    }
+                    rig.settle().await;
+                    if p.outcomes().is_empty() {
+                        out.fail(
+                            Fail::new(
+                                "request-outlives-its-timeout",
+                                format!(
+                                    "a user request (function {want_func}) transmitted {waited} ms ago and never answered is still pending although the response timeout is {TIMEOUT} ms; the outstation sent {} every {every} ms in the meantime",
+                                    ["null unsolicited responses", "responses with other sequence numbers", "link status requests", "frames from an unknown outstation"][*kind as usize % 4]
+                                ),
+                            )
+                            .with_sig(format!("C01 master request-outlives-its-timeout kind={}", kind % 4)),
+                        );
+                        return out;
+                    }
+                    last_req = None;
+                }
+            }
             Step::Reconnect => {
                 rig.disconnect().await;
                 rig.connect().await;
@@ -382,6 +479,7 @@ impl Prop for MasterScript {
             6 => (0u8..12).prop_map(Step::User),
             2 => prop_oneof![Just(1u16), Just(199), Just(200), Just(201), 0u16..600].prop_map(Step::Advance),
             1 => Just(Step::Reconnect),
+            2 => (0u8..5, 0u8..4, prop_oneof![Just(1u16), Just(50), Just(150), Just(198), 0u16..199]).prop_map(|(u, k, e)| Step::Starve(u, k, e)),
         ];
         let n = if tier == Tier::Quick { 14 } else { 40 };
         (
